@@ -16,3 +16,8 @@ import (
 func VerifNewDEMHelper(p key.Parameters) (subtle.EciesAEADHKDFDEMHelper, error) {
 	return iecies.NewDEMHelper(p)
 }
+
+// VerifCoordinateSizeForCurve exposes coordinateSizeForCurve of protoserialization.go (C12 harness).
+func VerifCoordinateSizeForCurve(curveType CurveType) (int, error) {
+	return coordinateSizeForCurve(curveType)
+}
